@@ -452,6 +452,11 @@ impl Engine for Arith {
             _ => vec![],
         }
     }
+    fn echo(&self, _prop: &str, c: &Case) -> Option<Case> {
+        let mut s = c.clone();
+        s.lay = vcore::run::same_width_layout(c.lay, c.a as u64 ^ (c.b as u64).rotate_left(17) ^ c.op as u64);
+        if s.lay == c.lay { None } else { Some(s) }
+    }
     fn eval(&self, prop: &str, c: &Case, chk: bool, kf: &Kf) -> Eval {
         if c.op == PROGRAM {
             return eval_program(c, chk, kf);
@@ -979,7 +984,7 @@ fn classify(prop: &str, l: L, op: u16, a: u128, b: u128, av: &Big, bv_raw: &Big,
 }
 
 pub fn main_entry() {
-    std::process::exit(vcore::run::main_with(&Arith, lay::is_chk()));
+    std::process::exit(vcore::run::main_with2(&Arith, lay::is_chk(), lay::is_oc()));
 }
 pub const PROGRAM_OP: u16 = ops::PROGRAM;
 
